@@ -29,19 +29,32 @@ import (
 
 const c15Deadline = 30 * time.Second
 
-// c15Timeouts counts waits that hit their deadline in this process. The first one gets the full
-// generous deadline; once something is evidently stuck later waits are cut short and the driver
-// loops stop generating (the affected cases are reported as anomalies, never as passes).
+// c15Timeouts counts waits that hit their deadline in this process (a hung / desynchronised broker).
+// The first one gets a generous deadline; once something is evidently stuck later waits are cut to
+// 2 s, the current case is abandoned, and after a few such cases (or when the wall-clock budget of
+// the harness run is used up) the driver loops stop generating. The affected cases carry an anomaly
+// ("hung ..."/"leak ...") and are never reported as passes, so broken code fails FAST.
 var c15Timeouts int
+var c15Start = time.Now()
 
 func c15Wait() time.Duration {
 	if c15Timeouts > 0 {
 		return 2 * time.Second
 	}
-	return c15Deadline
+	return 15 * time.Second
 }
 
-func c15GiveUp() bool { return c15Timeouts >= 6 }
+// c15GiveUp: stop generating cases (a run of the harness stays within a few minutes in the worst case).
+func c15GiveUp() bool {
+	budget := 150 * time.Second
+	if vfTier() == "thorough" {
+		budget = 1200 * time.Second
+	}
+	return c15Timeouts >= 4 || time.Since(c15Start) > budget
+}
+
+// c15Stuck: abandon the case in progress.
+func c15Stuck() bool { return c15Timeouts >= 4 }
 
 // c15Sub is one subscription (filter, QoS).
 type c15Sub struct {
@@ -134,14 +147,22 @@ func c15NewEnv(withPipe bool, publishLimit *RateLimit) *c15Env {
 
 // close shuts everything down and waits until the broker's goroutines are gone
 // (so that the goroutine-dump quiescence test of the next case is not disturbed).
-func (e *c15Env) close() {
+func (e *c15Env) close() bool {
 	c15Quiesce(e.open)
 	for _, c := range e.clis {
 		c.closeSock()
 	}
 	c15Quiesce(0)
 	e.b.close()
-	c15WaitGone()
+	return c15WaitGone()
+}
+
+// closeInto shuts the broker down and records goroutines it left behind (e.g. resend tickers of
+// sessions that were never closed) as an anomaly of the case.
+func (e *c15Env) closeInto(bad *[]string) {
+	if !e.close() {
+		*bad = append(*bad, "leak: broker goroutines survive close")
+	}
 }
 
 // ---------------------------------------------------------------- quiescence
@@ -221,14 +242,18 @@ func c15Quiesce(wantConns int) bool {
 }
 
 func c15WaitGone() bool {
-	end := time.Now().Add(5 * time.Second)
+	end := time.Now().Add(3 * time.Second)
+	if c15Timeouts > 0 {
+		end = time.Now().Add(time.Second)
+	}
 	for {
 		d := c15Goroutines()
 		if d.total == 0 {
 			return true
 		}
 		if time.Now().After(end) {
-			return false // leftovers of a closed broker are not an anomaly of the case
+			c15Timeouts++
+			return false
 		}
 		time.Sleep(300 * time.Microsecond)
 	}
